@@ -46,7 +46,7 @@ def gen_operand(rnd: random.Random, depth: int, caps: List[str], allow_new_cap: 
             d["register_multiplier"] = rnd.choice(["%rbx", "rbx"])
             d["constant_multiplier"] = rnd.choice([4, "4"])
         if rnd.random() < 0.5:
-            d["constant_offset"] = rnd.choice(["0x8", "8"])
+            d["constant_offset"] = rnd.choice(["0x8", "8", 0, "0x0", 8])      # the integer 0 is what an unquoted 0 / 0x0 loads as
         return {"$deref": d}
     if r < 0.42 and (caps or allow_new_cap):
         if caps and (not allow_new_cap or rnd.random() < 0.6):
@@ -215,7 +215,7 @@ def gen_records(rnd: random.Random, rule: Dict[str, Any]) -> List[Tuple[str, str
             nf = rnd.choice([0, 1, 1, 2, 2, 3])
             body.append((rnd.choice(MN_LIST), [rnd.choice(FIELDS[:-1]) for _ in range(nf)] or [""]))
     body = body[:14]
-    base = rnd.choice([0x10, 0x400000, 0xa0])
+    base = rnd.choice([0x10, 0x400000, 0xa0, 0xf4, 0xff7])      # the last two cross a hex digit-width boundary
     out = [(format(base + k * 3, "x"), mn, fields) for k, (mn, fields) in enumerate(body)]
     if rnd.random() < 0.3 and len(out) >= 2:
         # several code sections of a relocatable object restart at the same address
@@ -678,6 +678,9 @@ def validaddr_sweep(n: int, seed: int) -> Tuple[Dict[str, Any], List[Dict[str, A
             sym = " <f+0x10>" if mn in ("call", "jmp") and not ops[0].startswith("*") else ""
             optxt = ops[0] if len(ops) == 1 else ",".join(["$0x" + ops[0], ops[1]])
             lines.append(f"  {ad}:\te8 00 00 00 00       \t{mn}   {optxt}{sym}")
+            if mn == "mov":
+                # a long encoding continues on a bytes-only line: it is not an instruction and adds nothing to the stream
+                lines.append(f"  {format(int(ad, 16) + 7, 'x')}:\t00 00 00 ")
         listing = "\n".join(lines) + "\n"
         for mn in ("call", "jmp"):
             rule = {"config": cfg, "pattern": [{mn: ["valid_addr"]}]}
@@ -737,10 +740,10 @@ def cli_sweep(n: int, seed: int) -> Tuple[Dict[str, Any], List[Dict[str, Any]]]:
                 mp = os.path.join(t, f"{'zy'[k] if k < 2 else 'a'}_macros{ci}.yaml")
                 yaml.safe_dump(d, open(mp, "w"), sort_keys=False)
                 mps.append(mp)
-            for allm in (False, True):
-                for only in (False, True):
+            for allm, only, dbg in [(a_, o_, False) for a_ in (False, True) for o_ in (False, True)] + [(True, False, True), (False, True, True)]:
+                if True:
                     argv = [py, "-m", "jasm.main", "-p", rp, "-s", lp] + (["--all-matches"] if allm else []) + \
-                           (["--return_only_address"] if only else []) + (["--macros"] + mps if mps else [])
+                           (["--return_only_address"] if only else []) + (["--debug"] if dbg else []) + (["--macros"] + mps if mps else [])
                     p = subprocess.run(argv, capture_output=True, text=True, env=env, cwd=t)
                     runs += 1
                     out = p.stderr + p.stdout
@@ -775,7 +778,8 @@ def cli_sweep(n: int, seed: int) -> Tuple[Dict[str, Any], List[Dict[str, Any]]]:
 def binary_sweep(n: int, seed: int) -> Tuple[Dict[str, Any], List[Dict[str, Any]]]:
     import tempfile
     src = (".section .text.alpha,\"ax\"\n xor %eax,%eax\n ret\n.section .text.beta,\"ax\"\n push %rbp\n mov %rsp,%rbp\n pop %rbp\n ret\n"
-           ".section .text.gamma,\"ax\"\n sub $0x8,%rsp\n push %rbx\n add $0x8,%rsp\n ret\n.text\n nop\n ret\n")
+           ".section .text.gamma,\"ax\"\n sub $0x8,%rsp\n push %rbx\n add $0x8,%rsp\n ret\n.text\n nop\n ret\n"
+           ".section hotcode,\"ax\"\n xor %ebx,%ebx\n push %rbx\n ret\n")       # section names need not begin with a dot
     viol = []
     with tempfile.TemporaryDirectory() as t:
         sp, op = os.path.join(t, "a.s"), os.path.join(t, "a.o")
@@ -783,7 +787,7 @@ def binary_sweep(n: int, seed: int) -> Tuple[Dict[str, Any], List[Dict[str, Any]
         if subprocess.run(["as", sp, "-o", op], capture_output=True).returncode != 0:
             return {"binary_sweep": {"skipped": "assembler not available"}}, []
         seclists = [None, [".text.alpha"], [".text.beta"], [".text.gamma"], [".text.beta", ".text.gamma"], [".text"], [".text.alpha"], None,
-                    [".text.gamma", ".text.alpha"]]
+                    [".text.gamma", ".text.alpha"], ["hotcode"], [".text", "hotcode"]]
         pats = [["xor"], ["push"], ["sub"], ["ret"]]
         ops_bin, ops_txt = [], []
         for k, secs in enumerate(seclists):
@@ -804,7 +808,7 @@ def binary_sweep(n: int, seed: int) -> Tuple[Dict[str, Any], List[Dict[str, Any]
                              "real": {"binary_route": a, "objdump_text_route": b},
                              "disagreement": f"operation #{k} (sections {seclists[k]}): matching the binary differs from matching the text of objdump -d -M att"})
                 break
-    return {"binary_sweep": {"operations": len(seclists), "bound": "one object with 4 code sections, 9 operations with differing section lists "
+    return {"binary_sweep": {"operations": len(seclists), "bound": "one object with 5 code sections (one named without a leading dot), 11 operations with differing section lists "
                              "in one process, binary route vs the harness's own objdump text"}}, viol
 
 
@@ -906,11 +910,14 @@ def run(prop: str, tier: str, seed: int, force: bool = False) -> Tuple[Dict[str,
             plan += ["macros", "resolver", "undefined"]
         if prop in ("C19",):
             plan += ["undefined", "macros"]
-        if prop == "C14":
+        if prop == "C14" or (force and prop in ("C01", "C15", "C18", "C13")):
+            # the configuration in effect (flags, sections, range) must be this rule's: a refuted obligation about the
+            # singleton is looked for as a concrete history of operations
             plan.append("history")
         if prop in ("C08", "C09", "C10", "C16", "C06"):
             plan.append("parser")
-        if prop == "C18":
+        if prop == "C18" or (force and prop in ("C07", "C08", "C10")):
+            # which instructions enter the stream also depends on the observers installed by valid_addr_range
             plan.append("validaddr")
         if prop == "C20":
             plan.append("cli")
